@@ -161,6 +161,10 @@ Section Dec.
      object (faithful: false); the decoder family's model also refuses a key the map already holds
      (true) — the same thing when decoding into a fresh message *)
   Variable mapchk : bool.
+  (* Codec option WithProtoToAny: None = the default codec (an Any is stored as type name + JSON text; a
+     google.protobuf.Any field cannot be filled); Some back = the payload text is decoded into the named
+     type and marshalled, [back tn text] standing for resolver + Codec.decode + proto.Marshal *)
+  Variable any_back : option (bytes -> bytes -> outcome bytes).
   Variable env : env.
 
   Definition is_container (j : jvalue) : bool := match j with JObj _ | JArr _ => true | _ => false end.
@@ -281,8 +285,18 @@ Section Dec.
                   | None, _ => Err "no type found in Any"
                   | _, None => Err "no value found in Any"
                   | Some tn, Some v =>
-                      if pb then Err "proto is required for PB Any"
-                      else Ok (msg_put n (VMsg (msg_set false [] 3 (VBytes (raw v)) (msg_set false [] 1 (VStr tn) sub))) h1)
+                      match any_back with
+                      | None =>
+                          if pb then Err "proto is required for PB Any"
+                          else Ok (msg_put n (VMsg (msg_set false [] 3 (VBytes (raw v)) (msg_set false [] 1 (VStr tn) sub))) h1)
+                      | Some back =>
+                          obind (back tn (raw v)) (fun pbytes =>
+                            if pb then
+                              Ok (msg_put n (VMsg (msg_set false [] 2 (VBytes pbytes) (msg_set false [] 1 (VStr (any_prefix ++ tn)) sub))) h1)
+                            else
+                              Ok (msg_put n (VMsg (msg_set false [] 3 (VBytes (raw v)) (msg_set false [] 2 (VBytes pbytes)
+                                                    (msg_set false [] 1 (VStr tn) sub)))) h1))
+                      end
                   end))
           | _ => Err "unexpected token, expected {"
           end
@@ -460,12 +474,12 @@ Fixpoint jsize (j : jvalue) : nat :=
   | _ => 1%nat
   end.
 
-Definition decode_tree dsc raw mapchk (e : env) (root : bytes) (j : jvalue) : outcome msg :=
-  decode_tree_fuel dsc raw mapchk e (3 * jsize j + 3) root j.
+Definition decode_tree dsc raw mapchk any_back (e : env) (root : bytes) (j : jvalue) : outcome msg :=
+  decode_tree_fuel dsc raw mapchk any_back e (3 * jsize j + 3) root j.
 
 (* JSONToProto on a text that is one well-formed document *)
-Definition decode_text dsc (e : env) (root : bytes) (txt : bytes) : outcome msg :=
+Definition decode_text dsc any_back (e : env) (root : bytes) (txt : bytes) : outcome msg :=
   match strict_parse txt with
-  | Some j => decode_tree dsc print false e root j
+  | Some j => decode_tree dsc print false any_back e root j
   | None => Err "invalid JSON"
   end.
